@@ -375,6 +375,51 @@ settle(void)
 
 // auto mode (macro-step specifications): after every command run every runnable callback, and the ones
 // they make runnable, until the library is quiescent
+// A blocking nng_dial (no NNG_FLAG_NONBLOCK) runs on a helper thread: it returns when the first attempt has ended (the driver
+// completes or fails the parked connect) or when the socket is closed under it; its result is reported as operation <op>.
+static struct {
+	pthread_t    th;
+	volatile int inflight, done;
+	int          op, rv;
+	nng_dialer   d;
+} bd;
+static void *
+bd_thread(void *arg)
+{
+	(void) arg;
+	bd.rv   = nng_dial(sut, "irc://dial", &bd.d, 0);
+	bd.done = 1;
+	return NULL;
+}
+// after a step: if the first attempt is over (nothing parked in the transport any more) the call must return
+static void
+bd_collect(void)
+{
+	struct timespec ts = { 0, 200000 };
+	if (!bd.inflight) {
+		return;
+	}
+	if (!bd.done && vt_parked_conns("dial") == 0) {
+		for (int i = 0; i < 50000 && !bd.done; i++) {
+			if (dee_run_all(10000) == 0) {
+				nanosleep(&ts, NULL);
+			}
+		}
+	}
+	if (bd.done) {
+		op_t *op = &ops[bd.op];
+		pthread_join(bd.th, NULL);
+		bd.inflight = 0;
+		op->rv      = bd.rv;
+		op->ncb     = 1;
+		op->done    = 1;
+		if (bd.rv == 0) {
+			the_dialer  = bd.d;
+			have_dialer = 1;
+		}
+	}
+}
+
 static void
 quiesce(void)
 {
@@ -385,6 +430,12 @@ quiesce(void)
 		int n = dee_run_all(10000);
 		settle();
 		if (n == 0 && dee_npending() == 0) {
+			if (bd.inflight) {
+				bd_collect();
+				if (dee_npending() != 0 || nni_verif_reap_busy()) {
+					continue;
+				}
+			}
 			return;
 		}
 	}
@@ -763,6 +814,20 @@ main(int argc, char **argv)
 			}
 			dev_mode = 0;
 			dee_run_all(10000);
+			if (bd.inflight) {
+				// a blocking dial still in flight: closing the socket must have ended it
+				struct timespec ts = { 0, 200000 };
+				for (int i = 0; i < 100000 && !bd.done; i++) {
+					dee_run_all(10000);
+					nanosleep(&ts, NULL);
+				}
+				if (!bd.done) {
+					fprintf(stderr, "driver: watchdog: blocking dial does not return after socket close\n");
+					abort();
+				}
+				pthread_join(bd.th, NULL);
+				bd.inflight = 0;
+			}
 			for (int i = 1; i <= MAXOPS; i++) {
 				if (ops[i].used) {
 					nng_msg *m = nng_aio_get_msg(ops[i].aio);
@@ -1044,6 +1109,25 @@ main(int argc, char **argv)
 		} else if (!strcmp(cmd, "dial")) {
 			// dial | dial aio0 <op> | dial aio <op>
 			int rv = 0;
+			if (!strcmp(a1, "block")) {
+				// dial block <op>: nng_dial without NNG_FLAG_NONBLOCK on a helper thread (the reconnect times are the socket's)
+				op_t *op    = new_op(atoi(a2), 0);
+				op->nomsg   = 1;
+				bd.op       = atoi(a2);
+				bd.done     = 0;
+				bd.inflight = 1;
+				nng_socket_set_ms(sut, NNG_OPT_RECONNMINT, 10);
+				nng_socket_set_ms(sut, NNG_OPT_RECONNMAXT, 25);
+				pthread_create(&bd.th, NULL, bd_thread, NULL);
+				for (int i = 0; i < 20000 && vt_parked_conns("dial") == 0 && !bd.done; i++) {
+					struct timespec ts = { 0, 100000 };
+					dee_run_all(10000);
+					nanosleep(&ts, NULL);
+				}
+				settle();
+				o("\"out\":{\"rv\":\"ok\"},");
+				goto finish;
+			}
 			if (!have_dialer) {
 				rv = nng_dialer_create(&the_dialer, sut, "irc://dial");
 				if (rv == 0) {
